@@ -56,17 +56,19 @@ Definition mul64 (a b : N) : fe :=
   let mid := N.lxor (N.lxor (mul32 (N.lxor a0 a1) (N.lxor b0 b1)) lo) hi in
   (N.lxor lo (shlw mid 32), N.lxor hi (N.shiftr mid 32)).
 
-(* polyvalDot(a, b fieldElement) fieldElement *)
+(* polyvalDot(a, b fieldElement) fieldElement; fst/snd = the struct fields .lo/.hi *)
 Definition polyvalDot (a b : fe) : fe :=
-  let '(alo, ahi) := a in
-  let '(blo, bhi) := b in
-  let '(r0lo, r0hi) := mul64 alo blo in
-  let '(r1lo, r1hi) := mul64 ahi bhi in
-  let '(mlo, mhi) := mul64 (N.lxor alo ahi) (N.lxor blo bhi) in
-  let mlo := N.lxor mlo (N.lxor r0lo r1lo) in
-  let mhi := N.lxor mhi (N.lxor r0hi r1hi) in
-  let r1lo := N.lxor r1lo mhi in
-  let r0hi := N.lxor r0hi mlo in
+  let r0 := mul64 (fst a) (fst b) in
+  let r1 := mul64 (snd a) (snd b) in
+  let mid := mul64 (N.lxor (fst a) (snd a)) (N.lxor (fst b) (snd b)) in
+  (* mid.lo ^= r0.lo ^ r1.lo; mid.hi ^= r0.hi ^ r1.hi *)
+  let midlo := N.lxor (fst mid) (N.lxor (fst r0) (fst r1)) in
+  let midhi := N.lxor (snd mid) (N.lxor (snd r0) (snd r1)) in
+  (* r1.lo ^= mid.hi; r0.hi ^= mid.lo *)
+  let r1lo := N.lxor (fst r1) midhi in
+  let r1hi := snd r1 in
+  let r0lo := fst r0 in
+  let r0hi := N.lxor (snd r0) midlo in
   (* r0.hi ^= (r0.lo << 63) ^ (r0.lo << 62) ^ (r0.lo << 57) *)
   let r0hi := N.lxor r0hi (N.lxor (N.lxor (shlw r0lo 63) (shlw r0lo 62)) (shlw r0lo 57)) in
   (* 1 *)
